@@ -64,14 +64,27 @@ def r1(ctx):
     ctx.emit('C08-R1', active, TAGGING, cands[0], f'ownership filter is applied when a region is given (guards: {guards})', key='filter-active', nontrivial=False)
 
 
-@rule('C08', 'C08-R2', 'a job stops only when the molecule site reached the end of its FETCH window (not the bin end)')
+@rule('C08', 'C08-R2', 'a job does not leave the molecule loop on the site of a molecule: the iterator emits rejected fragments as soon as they are read, ahead of the molecules it '
+                       'still buffers, so the first molecule at or behind the end of the window says nothing about what is still to come - a `break` / `return` there drops '
+                       'every buffered molecule of the bin (the reads the iterator walks end with the fetch window anyway); reads are fetched from the fetch window')
 def r2(ctx):
     f, loop = _task_loop(ctx)
-    brk = [s for s in walk_no_nested(loop) if isinstance(s, ast.If) and len(s.body) == 1 and isinstance(s.body[0], ast.Break)]
-    if len(brk) != 1:
-        ctx.emit('C08-R2', len(brk) == 0, TAGGING, loop, f'{len(brk)} early-stop tests in the molecule loop', key='stop-criterion', nontrivial=False)
-        return
-    t = brk[0].test
+    exits = [s for s in walk_no_nested(loop) if isinstance(s, (ast.Break, ast.Return))]
+    site_exits = []
+    for x in exits:
+        conds = reach_conds(loop.body, x) or []
+        if any(n_ for t_, pol in conds for n_ in names_in(t_) if 'pos' in n_ or 'site' in n_):
+            site_exits.append((x, conds))
+    for x, conds in site_exits[:1]:
+        ctx.emit('C08-R2', False, TAGGING, x, f'the molecule loop is left by `{src(x)}` under `{" and ".join(src(t_) if pol else "not (" + src(t_) + ")" for t_, pol in conds)[:160]}`: a rejected fragment '
+                 f'(emitted out of coordinate order) behind the window end makes the job drop every molecule the iterator still buffers', key='stop-criterion',
+                 what='run_tagging_task: the job stops at the first molecule behind its window and loses the buffered molecules')
+    if not site_exits:
+        ctx.emit('C08-R2', True, TAGGING, loop, f'{len(exits)} early exits of the molecule loop, none conditioned on a molecule site', key='stop-criterion')
+    _r2_fetch_region(ctx, loop)
+    return
+    brk = []
+    t = None
     sitev = [n for n in names_in(t) if 'pos' in n]
     if len(sitev) != 1:
         raise AnalysisError(f'stop criterion not understood: {src(t)}')
@@ -83,7 +96,9 @@ def r2(ctx):
     ctx.emit('C08-R2', ok_name and not bad, TAGGING, brk[0], f'stop criterion `{src(t)}` ' + ('== site >= fetch_end' if ok_name and not bad else
              'stops at ' + ', '.join(sorted(others)) + ': molecules of the bin whose reads lie in the fetch margin can be cut off' if not ok_name else f'differs: {bad[0]}'),
              key='stop-criterion')
-    # the break must come before the ownership skip? irrelevant; but it must not precede the site determination
+
+
+def _r2_fetch_region(ctx, loop):
     # region passed to the iterator is the fetch window
     it = loop.iter
     call = [c for c in walk_no_nested(it) if isinstance(c, ast.Call) and src(c.func) == 'molecule_iterator_class']
